@@ -1,5 +1,5 @@
 """C02 — the score: which strings are compared at which effective block size, on every entry point (not the score value)."""
-from ..rules import effbs, blocksize, convert, typestate, casts
+from ..rules import effbs, blocksize, convert, typestate, casts, vis
 
 EXPL = ("Decides (SA-EFFBS, dimension analysis over MIR): at every scorer call site whose operands are block hashes of hash objects "
         "(FuzzyHashCompareTarget::compare* relation-specific variants, FuzzyHashData::compare via compare_optimized_internal) the two "
@@ -32,6 +32,7 @@ def run(ctx):
         ctx.guard("C02", "views", lambda: typestate.views_are_like_indexed(ctx, prog))
         ctx.guard("C02", "equiv", lambda: typestate.equiv_exact(ctx, prog))
         ctx.guard("C02", "accumulate", lambda: typestate.accumulate_exact(ctx, prog))
+        ctx.guard("C02", "traits", lambda: vis.trait_census(ctx, prog, scope='position_array::|FuzzyHashCompareTarget'))
         ctx.guard("C02", "casts", lambda: casts.census(ctx, prog, scope='internals::compare::', floor=3))
         if c not in ("nodef",):
             ctx.guard("C02", "easy", lambda: effbs.string_front_end(ctx, prog))
